@@ -189,3 +189,32 @@ Proof.
   - intros p recs look Hl Hsz. destruct (inline_levels_bound p recs look Hl Hsz) as [l [H _]].
     rewrite H. split; [intros tag|]; discriminate.
 Qed.
+
+(* ------------------------------------------------------------------ u64 reads stay inside one region *)
+Lemma read_u64_inside rs addr v : wf_regions rs -> 0 <= addr < two64 -> read_u64_at rs addr = Some v ->
+  exists m, In m rs /\ r_base m <= addr /\ addr + 8 <= r_base m + r_size m /\ addr + 8 <= two64 /\
+            v = le_value (firstn 8 (skipn (Z.to_nat (addr - r_base m)) (r_bytes m))).
+Proof.
+  intros Hwf Ha H. unfold read_u64_at in H.
+  destruct (memory_at rs addr) as [m|] eqn:E; [|discriminate].
+  destruct (memory_at_sound _ _ _ Hwf E) as [Hin [Hlo [Hhi Htop]]].
+  destruct (Hwf m Hin) as [Hb [Hs Hlen]].
+  unfold region_read_u64, checked_sub in H.
+  destruct (0 <=? addr - r_base m) eqn:E0; [|discriminate].
+  destruct (addr - r_base m + 8 <=? Z.of_nat (length (r_bytes m))) eqn:E1; [|discriminate].
+  apply Z.leb_le in E1. inversion H; subst v.
+  exists m. repeat split; try assumption; try lia.
+Qed.
+
+(* a read that would need bytes of the following region fails, however the regions are laid out *)
+Lemma read_u64_never_stitches rs addr m : wf_regions rs -> 0 <= addr < two64 ->
+  memory_at rs addr = Some m -> r_base m + r_size m < addr + 8 -> read_u64_at rs addr = None.
+Proof.
+  intros Hwf Ha E Hcut. unfold read_u64_at. rewrite E.
+  destruct (memory_at_sound _ _ _ Hwf E) as [Hin [Hlo [Hhi Htop]]].
+  destruct (Hwf m Hin) as [Hb [Hs Hlen]].
+  unfold region_read_u64, checked_sub.
+  destruct (0 <=? addr - r_base m); [|reflexivity].
+  destruct (addr - r_base m + 8 <=? Z.of_nat (length (r_bytes m))) eqn:E1; [|reflexivity].
+  apply Z.leb_le in E1. lia.
+Qed.
